@@ -27,7 +27,13 @@ EXTRA = [
     'import "std/io";\nfn f(a: i32) -> i32 {\n    if a == 1 {\n        return 2;\n    }\n}\nfn main() { io::Println(f(1, 2)); }\n',
     'import "std/io";\ntype P struct { .X: i32 };\nfn main() {\n    let p: P = { .X = 1, .Q = 2 };\n    p.Z = 3; undefinedName = 4;\n    let a: [2]i32 = [1, 2, 3];\n}\n',
     'import "std/io";\nfn main() {\n    let a: i32 = 1;\n    let r: &\'i32 = &\'a; a = 2; io::Println(r);\n    const c: i32 = 1; c = 2;\n}\n',
+    # syntax errors: statements without their ';' (followed on the same line, on the next line, by the closing brace)
+    'import "std/io";\nfn main() {\n    let x: i32 = 1 io::Println(x);\n    let y: i32 = x + 2\n    io::Println(y) }\n',
+    'import "std/io";\nfn g(a: i32) -> i32 {\n    return a * 2 }\nfn main() {\n    let v: i32 = g(3) let w: i32 = g(v) io::Println(w);\n}\n',
+    # characters the lexer does not know (its own diagnostic), one per line and two on one line
+    'import "std/io";\nfn main() {\n    let x: i32 = 1;\n    let y: i32 = 2 $ 3;\n    io::Println(x); ` `\n}\n',
 ]
+LEX_ERRORS_OK = {"extra6.fer"}
 
 
 def mask(msg):
@@ -81,11 +87,20 @@ def run(tier, seed, replay=None):
     base_obs = pool.compile_many([{"entry": p, "skip": True} for p in paths])
     progs = []
     for (name, text), p, o in zip(corpus, paths, base_obs):
-        if o["cls"] not in ("ACCEPT", "REJECT") or p not in toks or toks[p]["lexerrors"]:
+        if o["cls"] not in ("ACCEPT", "REJECT") or p not in toks or (toks[p]["lexerrors"] and name not in LEX_ERRORS_OK):
             continue                  # programs the front end crashes on belong to C13
         if "@" in text:
             continue
         progs.append({"name": name, "text": text, "path": p, "obs": o, "tokens": toks[p]["tokens"]})
+        # a diagnostic that names a character is about that character: the text at its position is the character
+        lines = text.split("\n")
+        for e in o["errors"]:
+            m = re.search(r"unrecognized character '(.)'", e["msg"])
+            if m and e["line"] is not None:
+                at = lines[e["line"] - 1][e["col"] - 1:e["col"]] if 0 < e["line"] <= len(lines) else ""
+                if at != m.group(1):
+                    chk.fail("C19|lexer-diagnostic-position", "%s: %r is reported at %d:%d where the text has %r"
+                             % (name, e["msg"], e["line"], e["col"], at), {"program": name, "gap": 0, "trivia": 0})
     if len(progs) < 10:
         raise core.Undecided("corpus too small")
 
@@ -112,7 +127,7 @@ def run(tier, seed, replay=None):
                 k2 = tk[gi - 2][3] if gi >= 2 else "^"
                 comment = "/" in TRIVIA[ti][0]
                 ctx = (k2, k1, tk[gi][3], ti) if comment else (k1, tk[gi][3], ti)
-                if ctx not in seen:
+                if ctx not in seen or pr["name"].startswith("extra"):     # the ill-formed programs: every gap
                     seen.add(ctx)
                     keep.append((pr, gi, ti))
             variants = keep
